@@ -1288,7 +1288,7 @@ def run(ctx: Ctx):
     flush(ctx, pending)
     run_cases(ctx, corner_cases(), pending)
     flush(ctx, pending)
-    n = ctx.pick(110, 2500)
+    n = ctx.pick(110, 2000)
     run_cases(ctx, [make_case(rng) for _ in range(n)], pending)
     flush(ctx, pending)
 
